@@ -60,6 +60,7 @@ fn main() {
                 "C12" => props::c12::run(tier, seed, replay.as_deref()),
                 "C14" => props::c14::run(tier, seed, replay.as_deref()),
                 "C15" => props::c15::run(tier, seed, replay.as_deref()),
+                "C16" => props::c16::run(tier, seed, replay.as_deref()),
                 "C20" => props::c20::run(tier, seed, replay.as_deref()),
                 _ => {
                     eprintln!("no check for {id}");
